@@ -168,13 +168,15 @@ def rule_3(ctx):
     rets = value_returns(fn)
     for r in rets:
         conds = flow.path_conditions(r, check_kills=False)
+        vd = flow.Deps(fn)
         nf_guard = any(c.kind == 'guard' and not c.polarity and isinstance(c.test, ast.Compare) and isinstance(c.test.ops[0], ast.NotIn)
-                       and p[0] in names_in(c.test.left) and any(isinstance(x, ast.Raise) and raise_class(ctx, x) == XLERR + 'NaExcelError' for x in c.origin.body)
+                       and ('@' + p[0]) in vd.closure(names_in(c.test.left)) and any(isinstance(x, ast.Raise) and raise_class(ctx, x) == XLERR + 'NaExcelError' for x in c.origin.body)
                        for c in conds)
         ctx.expect(nf_guard, r, f'VLOOKUP `return {ast.unparse(r.value)[:40]}` only after the key was found',
                    'a value is returned on a path that has not passed the "lookup value not in the first column -> #N/A" guard '
                    '(VLOOKUP(absent key, table, 1) returns the key itself)')
-        col_guard = any(c.kind == 'guard' and not c.polarity and p[2] in names_in(c.test) and any(
+        vdeps = flow.Deps(fn)
+        col_guard = any(c.kind == 'guard' and not c.polarity and ('@' + p[2]) in vdeps.closure(names_in(c.test)) and any(
             isinstance(x, ast.Raise) and is_excel_error_ref(ctx, raise_class(ctx, x)) for x in c.origin.body) for c in conds)
         ctx.expect(col_guard, r, f'VLOOKUP `return {ast.unparse(r.value)[:40]}` only for a column inside the table',
                    'a value is returned without the column-index range check')
@@ -211,7 +213,16 @@ def rule_4(ctx):
             zips = [c for c in ast.walk(comp) if isinstance(c, ast.Call) and isinstance(c.func, ast.Name) and c.func.id == 'zip'
                     and any(isinstance(a, ast.Starred) for a in c.args)]
             ctx.expect(bool(zips), comp, f'{name}: ranges walked position by position (zip(*ranges))', f'{name} does not pair the ranges position by position')
-        pcs = [c for c in flow.calls_in(fn) if ctx.res.resolve(c.func, f.module) == 'pkg:xlfunctions.xlcriteria:parse_criteria']
+        PC = 'pkg:xlfunctions.xlcriteria:parse_criteria'
+        pcs = [c for c in flow.calls_in(fn) if ctx.res.resolve(c.func, f.module) == PC]
+        if not pcs:
+            # through a package helper (one level)
+            for c in flow.calls_in(fn):
+                ref = ctx.res.resolve(c.func, f.module) if isinstance(c.func, (ast.Name, ast.Attribute)) else None
+                hm, hfn = ctx.res.lookup(ref) if ref else (None, None)
+                if isinstance(hfn, ast.FunctionDef) and any(ctx.res.resolve(x.func, hm) == PC for x in flow.calls_in(hfn)
+                                                            if isinstance(x.func, (ast.Name, ast.Attribute))):
+                    pcs.append(c)
         ctx.expect(bool(pcs), fn, f'{name} builds its check with parse_criteria', f'{name} does not use parse_criteria')
     ctx.floor(16, 'scan structure of the four functions')
 
